@@ -14,7 +14,12 @@ func checkC04(c *Check) {
 	if p == nil {
 		return
 	}
-	runAsm(c, p, []asmCase{{false, false}, {false, true}}, map[string]string{"offset": "R04.1", "consumed": "R04.2", "access": "R04.3", "blockend": "R04.4", "exit": "R04.5", "nowrap32": "R04.8"})
+	cases := []asmCase{{false, false}, {false, true}}
+	if !dstNonNilAtCallSite(c, p, "R04.3") {
+		// a nil destination can reach the assembly: its limits are derived from the pointer, so those cases count too
+		cases = append(cases, asmCase{true, false}, asmCase{true, true})
+	}
+	runAsm(c, p, cases, map[string]string{"offset": "R04.1", "consumed": "R04.2", "access": "R04.3", "blockend": "R04.4", "exit": "R04.5", "nowrap32": "R04.8"})
 	c.RuleDoc["R04.8"] = "assembly: 32-bit arithmetic on lengths and positions does not wrap (no instance on the current tree: all length arithmetic is 64-bit)"
 	portableDecoderRules(c, "R04")
 	ruleObservationalCollapse(c, "R04.10")
